@@ -263,13 +263,18 @@ def insertionSort {α : Type} (cmp : α → α → Ordering) : List α → List 
   | [] => []
   | x :: xs => orderedInsert cmp x (insertionSort cmp xs)
 
-/-- model of `ListIterator` over a resolved finite term, as used by `Sort`/`KeySort`:
-    the elements, or the error of the first non-list tail -/
-def listElems (allowPartial : Bool) (l : Term) : Except Term (List Term) :=
-  match l.spine with
-  | (xs, .atom "[]") => .ok xs
-  | (xs, .var _) => if allowPartial then .ok xs else .error instErr
-  | (_, _) => .error (typeErr "list" l)
+/-- how a `ListIterator` over a resolved finite term ends: `Err()` after the last `Next()`;
+    `tail` is what is left after the list cells of `whole` -/
+def listEnd (allowPartial : Bool) (whole tail : Term) : Except Term Unit :=
+  match tail with
+  | .atom "[]" => .ok ()
+  | .var _ => if allowPartial then .ok () else .error instErr
+  | _ => .error (typeErr "list" whole)
+
+/-- a loop `for iter.Next() { collect }` followed by `iter.Err()`: the elements, or the error -/
+def listElems (allowPartial : Bool) (l : Term) : Except Term (List Term) := do
+  listEnd allowPartial l l.spine.2
+  pure l.spine.1
 
 /-- engine/builtin.go `Sort` for an unbound or arbitrary `sorted` argument: error, or the list the
     `sorted` argument is unified with -/
@@ -309,15 +314,17 @@ def keyOf : Term → Term
 /-- `less` of `KeySort`: `elems[i].(Compound).Arg(0).Compare(elems[j].(Compound).Arg(0), env)` -/
 def cmpKey (x y : Term) : Ordering := compare (keyOf x) (keyOf y)
 
-/-- engine/builtin.go `KeySort`, with Go's `sort.SliceStable` as the parameter `sorter` -/
+/-- engine/builtin.go `KeySort`, with Go's `sort.SliceStable` as the parameter `sorter`.
+    Both loops check each element inside the loop body, i.e. BEFORE the iterator reports how the
+    list ends. -/
 def keysort (sorter : List Term → List Term) (pairs sorted : Term) : Except Term Term := do
-  let elems ← listElems false pairs
-  checkPairs elems
+  checkPairs pairs.spine.1
+  listEnd false pairs pairs.spine.2
   match sorted with
   | .var _ => pure ()
   | s =>
-    let es ← listElems false s
-    checkSortedPairs es
-  pure (Term.list (sorter elems))
+    checkSortedPairs s.spine.1
+    listEnd true s s.spine.2       -- AllowPartial (fixed: the pinned code rejected partial lists here)
+  pure (Term.list (sorter pairs.spine.1))
 
 end PrologVerif.Order
